@@ -163,7 +163,7 @@ class Monitor:
         self.snaps = []       # dict(sweep, Y, info, Yold, ranks)
         self.fired = False
         self.hook = hook
-        self.cont = cont          # what the callback returns to say "go on": None, False or 0
+        self.cont = cont          # what the callback returns to say "go on": None, False, 0 or a truthy value that is not True
 
     def __call__(self, Y, info, opts):
         s = len(self.snaps) + 1
